@@ -1033,3 +1033,29 @@ benign(
     ["C17"],
     ("cubed/array_api/statistical_functions.py", "        raise ValueError(f\"Expected two elements in {axis} axis to combine\")\n\n    n_a = nxp.take(a[\"n\"], 0, axis=axis)", "        raise ValueError(f\"Expected exactly two elements in axis {axis} to combine\")\n\n    n_a = nxp.take(a[\"n\"], 0, axis=axis)"),
 )
+
+# ---------------------------------------------------------------- COUNT-1 reiterable:class
+mutant(
+    "M13r-chunkkeys-remembers-its-iterator",
+    ["C13", "C11"],
+    "COUNT-1",
+    (PBW, "        self.chunks_normal = chunks_normal\n\n    def __iter__(self):\n        return map(\n            list, itertools.product(*[range(len(c)) for c in self.chunks_normal])\n        )\n", "        self.chunks_normal = chunks_normal\n        self._keys = map(\n            list, itertools.product(*[range(len(c)) for c in self.chunks_normal])\n        )\n\n    def __iter__(self):\n        return self._keys\n"),
+)
+benign(
+    "B13r-chunkkeys-remembers-a-list",
+    ["C13", "C11"],
+    (PBW, "        self.chunks_normal = chunks_normal\n\n    def __iter__(self):\n        return map(\n            list, itertools.product(*[range(len(c)) for c in self.chunks_normal])\n        )\n", "        self.chunks_normal = chunks_normal\n        self._keys = None\n\n    def __iter__(self):\n        if self._keys is None:\n            self._keys = list(\n                map(list, itertools.product(*[range(len(c)) for c in self.chunks_normal]))\n            )\n        return iter(self._keys)\n"),
+)
+
+# ---------------------------------------------------------------- MAP-DRAIN-1 refill-gate
+mutant(
+    "M07g-refill-under-backups-option",
+    ["C07", "C08"],
+    "MAP-DRAIN-1",
+    (ASYNC, "        if batch_size is not None and len(pending) < batch_size:\n            inputs = next(input_batches, None)  # type: ignore\n", "        if use_backups and batch_size is not None and len(pending) < batch_size:\n            inputs = next(input_batches, None)  # type: ignore\n"),
+)
+benign(
+    "B07g-refill-nested-batch-tests",
+    ["C07", "C08"],
+    (ASYNC, "        if batch_size is not None and len(pending) < batch_size:\n            inputs = next(input_batches, None)  # type: ignore\n", "        if batch_size is not None and not len(pending) >= batch_size:\n            inputs = next(input_batches, None)  # type: ignore\n"),
+)
